@@ -119,9 +119,21 @@ CLAIMED = {
         technique='static analysis: HIR effect-schedule duality (io vocabulary) + call-graph determinism lints'),
 }
 
+CLAIMED['C12'] = dict(
+    text='PARTIAL claim — the structural clauses of a numerical property. Decided from HIR: (R1) identity bases never reach the batch-affine path of msm_best '
+         '(every Schedule::add site is control-dependent on an is_identity test; no coordinates() result is unwrapped without an existence test) — the clause '
+         '"for all inputs, including identity bases, any length" (repaired defect: from 8104 bases on an identity base made msm_best panic); (R2) scalars and '
+         'bases are split by the same chunk expression in every parallel driver and the asserting entry points assert equal lengths — the clause "any number of '
+         'worker threads"; (R3) the type-punned blst fast path of msm_specific lies under its TypeId test; (R4) best_fft keeps its size precondition; (R5) the '
+         'empty MSM is answered before blst indexes its first point; N1/N2 operation and narrowing profiles of the anchor files (msm.rs, fft.rs, domain.rs, '
+         'arithmetic.rs, rational.rs, kzg/msm.rs, kzg/params.rs, poly/mod.rs). NOT decided, and not claimed: that Booth windows, bucket sums, butterflies, coset '
+         'and vanishing-polynomial algebra, Lagrange evaluation and polynomial division compute the right VALUES — those clauses are numerical and no static '
+         'argument in reach bounds them.',
+    note=STATIC_NOTE + ' The numerical clauses of C12 (the bulk of its statement) are explicitly out of reach of this technique; see DESIGN.md §I.4.',
+    technique='static analysis: HIR control-dependence (guard) rules + sibling chunk-expression agreement + operation / narrowing profiles against the reference tree',
+    design_ref='DESIGN.md Part I §I.3 C12 and §I.4 (what is not decided)')
+
 NOT_APPLICABLE = {
-    'C12': 'equality of MSM/FFT/domain results with their naive definitions for all inputs, sizes and thread counts is numerical; '
-           'schedule-independence is already discharged by Rust ownership typing of the chunked parallel helpers; no structural clause remains',
     'C13': 'bilinearity / non-degeneracy / product formula are algebraic facts about blst outputs; nothing in the shape of the wrappers decides them',
 }
 # properties still being built are listed not-applicable-yet until their check exists
